@@ -96,6 +96,17 @@ def run_cli(spec, tier, seed):
                         res.violation('C01|cli|failure-omits-blocked', f'{year} {fam} [{name}]: the failure report omits the lines others are blocked behind {sorted(deps - listed_dep)[:3]}', rp)
                 if len(res.samples) < 1 and said_fail:
                     res.sample({'persona': p.describe(), 'variant': name, 'stdout_head': r.stdout[:400]})
+                if name.startswith('missing') and (Mi or Bl):
+                    # the same file with --prompt-missing and a user who declines every question (Ctrl-C):
+                    # what was needed is still missing, so the command may not claim success
+                    def decline(prompt):
+                        raise KeyboardInterrupt()
+                    r3 = cli.run_cli(args + ['--prompt-missing'], input_fn=decline)
+                    res.evaluations += 1
+                    res.count('cli_runs_declining_user')
+                    if r3.exc is None and 'Successfully solved!' in r3.stdout:
+                        res.violation('C01|cli|says-solved-after-declined-question', f'{year} {fam} [{name}]: the user declined every question (Ctrl-C) for the missing inputs {sorted(Mi)[:3]}, '
+                                      'yet the CLI printed "Successfully solved!"', rp)
     finally:
         import shutil
         shutil.rmtree(tmp, ignore_errors=True)
